@@ -54,7 +54,9 @@ func (r *Router) route(s Sender, p stanza.Packet) {
 		}
 	}
 	iq, isIq := p.(*stanza.IQ)
-	if isIq {
+	if isIq && (iq.Type == stanza.IQTypeResult || iq.Type == stanza.IQTypeError) {
+		// Only a response can answer a pending request: a get or set that happens to carry the id of one
+		// of our own requests is somebody's request to us, to be routed and answered like any other.
 		// Look the pending request up and remove it in one critical section: of several
 		// responses with the same id only one can find it, and so only one is delivered.
 		r.IQResultRouteLock.Lock()
